@@ -8,115 +8,6 @@ ALL valid options, and never smaller than the current one
 namespace LexVerif.Proof.WriteFloatBound
 open LexVerif.Spec LexVerif.Model LexVerif.Model.WriteFloat LexVerif.Proof.WriteFloatBuf
 
-theorem need_le_general (feats : Features) (f : Fmt) (fmt : Format) (o : WOpts) (ds : List Nat) (sci : Int) (S D E B : Nat)
-    (her : (effFmt feats fmt).exponentRadix = 10) (hmx : o.maxDigits ≠ some 0)
-    (hds1 : 1 ≤ ds.length) (hdsn : ds.length ≤ mantNeed f) (hrange : -324 ≤ sci ∧ sci ≤ 308) (hS : S ≤ 1)
-    (hB : 2 + E + D ≤ B) (hB64 : 64 ≤ B) (hE5 : 5 ≤ E)
-    (hEbr : ¬ (effFmt feats fmt).noExponentNotation = true →
-      (o.negBreak.getD (-5)).natAbs ≤ E ∧ (o.posBreak.getD 9).toNat ≤ E)
-    (hEno : (effFmt feats fmt).noExponentNotation = true → 324 ≤ E)
-    (hcD : (truncateAndRound ds o).1.length ≤ D) (hmnD : o.minDigits.getD 0 ≤ D)
-    (hsafe : if feats.compact = true then
-        2 ≤ D ∨ (if (effFmt feats fmt).noExponentNotation = true then 309 else (o.posBreak.getD 9).toNat) + 4 ≤ 64
-      else (mantNeed f ≤ D ∨
-          (if (effFmt feats fmt).noExponentNotation = true then 324 else (o.negBreak.getD (-5)).natAbs) + 2 + mantNeed f ≤ 64) ∧
-        (o.minDigits.getD 0 ≤ 50 ∨ 12 ≤ E) ∧
-        (3 ≤ D ∨ (if (effFmt feats fmt).noExponentNotation = true then 309 else (o.posBreak.getD 9).toNat) + 5 ≤ 64)) :
-    S + needDec fmt feats f ds sci o ≤ B := by
-  obtain ⟨hc1, hc2, hc3, hc4⟩ := truncateAndRound_length ds o hds1 hmx
-  have hnd := mantNeed_le f
-  have hexD : minExactDigits (truncateAndRound ds o).1.length o ≤ D := by
-    have := (minExact_le (truncateAndRound ds o).1.length o).1; omega
-  unfold needDec
-  by_cases hcomp : feats.compact = true
-  · rw [if_pos hcomp]
-    rw [if_pos hcomp] at hsafe
-    unfold needDecC
-    dsimp only
-    have hcar : (if (truncateAndRound ds o).2 = true then (1 : Int) else 0) ≤ 1 ∧
-        0 ≤ (if (truncateAndRound ds o).2 = true then (1 : Int) else 0) := by split <;> omega
-    generalize hsci' : sci + (if (truncateAndRound ds o).2 = true then 1 else 0) = sci' at hcar ⊢
-    have hr' : -324 ≤ sci' ∧ sci' ≤ 309 := by omega
-    by_cases c2 : ¬ (effFmt feats fmt).noExponentNotation = true ∧ ((effFmt feats fmt).requiredExponentNotation = true ∨
-        sci' < o.negBreak.getD (-5) ∨ sci' > o.posBreak.getD 9)
-    · rw [if_pos c2, her]
-      exact sciC_arith _ feats S _ _ _ E D B o hcomp hS (expSign_length_le _ _ _)
-        (numeral10_length_le _ (by omega)) hc1 hcD hexD hE5 hB hB64
-    · rw [if_neg c2]
-      by_cases c3 : sci' < 0
-      · rw [if_pos c3]
-        refine negC_arith S _ _ _ E D B hS ?_ hcD hexD hB
-        by_cases hne : (effFmt feats fmt).noExponentNotation = true
-        · have := hEno hne; omega
-        · have := (hEbr hne).1
-          have : o.negBreak.getD (-5) ≤ sci' := by
-            by_cases hh : sci' < o.negBreak.getD (-5)
-            · exact absurd ⟨hne, Or.inr (Or.inl hh)⟩ c2
-            · omega
-          omega
-      · rw [if_neg c3]
-        have hex1 := (minExact_le (sci'.toNat + 1 + 1) o).1
-        by_cases hne : (effFmt feats fmt).noExponentNotation = true
-        · rw [if_pos hne] at hsafe
-          exact posC_arith S _ _ _ _ E D B 309 o.trim hS (by omega) (by have := hEno hne; omega) hcD hexD (by omega) hB hB64
-            hsafe
-        · rw [if_neg hne] at hsafe
-          have : sci' ≤ o.posBreak.getD 9 := by
-            by_cases hh : sci' > o.posBreak.getD 9
-            · exact absurd ⟨hne, Or.inr (Or.inr hh)⟩ c2
-            · omega
-          exact posC_arith S _ _ _ _ E D B (o.posBreak.getD 9).toNat o.trim hS (by omega) (hEbr hne).2 hcD hexD (by omega)
-            hB hB64 hsafe
-  · rw [if_neg hcomp]
-    rw [if_neg hcomp] at hsafe
-    obtain ⟨hs1, hs2, hs3⟩ := hsafe
-    unfold needDecN
-    dsimp only
-    by_cases c2 : ¬ (effFmt feats fmt).noExponentNotation = true ∧ ((effFmt feats fmt).requiredExponentNotation = true ∨
-        sci < o.negBreak.getD (-5) ∨ sci > o.posBreak.getD 9)
-    · rw [if_pos c2, her]
-      have hcar : (if (truncateAndRound ds o).2 = true then (1 : Int) else 0) ≤ 1 ∧
-          0 ≤ (if (truncateAndRound ds o).2 = true then (1 : Int) else 0) := by split <;> omega
-      exact sciN_arith _ feats S _ _ _ _ _ E D B o hS (expSign_length_le _ _ _)
-        (numeral10_length_le _ (by omega)) hdsn hnd hc1 hcD (by omega) hexD (minExact_le _ o).1 hE5 hB hB64 hs2
-    · rw [if_neg c2]
-      by_cases c3 : sci < 0
-      · rw [if_pos c3]
-        refine negN_arith S _ _ _ _ _ E D B _ o.trim hS (by omega) ?_ hdsn hc1 hcD hc2 hexD ?_ hB hB64 ?_
-        · by_cases hne : (effFmt feats fmt).noExponentNotation = true
-          · have := hEno hne; omega
-          · have := (hEbr hne).1
-            have : o.negBreak.getD (-5) ≤ sci := by
-              by_cases hh : sci < o.negBreak.getD (-5)
-              · exact absurd ⟨hne, Or.inr (Or.inl hh)⟩ c2
-              · omega
-            omega
-        · intro hc; rw [hc4 hc]; rfl
-        · by_cases hne : (effFmt feats fmt).noExponentNotation = true
-          · rw [if_pos hne] at hs1; omega
-          · rw [if_neg hne] at hs1
-            have : o.negBreak.getD (-5) ≤ sci := by
-              by_cases hh : sci < o.negBreak.getD (-5)
-              · exact absurd ⟨hne, Or.inr (Or.inl hh)⟩ c2
-              · omega
-            omega
-      · rw [if_neg c3]
-        have hcarN : (if (truncateAndRound ds o).2 = true then 1 else 0) ≤ 1 := by split <;> omega
-        generalize (if (truncateAndRound ds o).2 = true then 1 else 0) = cy at hcarN ⊢
-        have hex1 := (minExact_le (sci.toNat + 1 + cy + 1) o).1
-        by_cases hne : (effFmt feats fmt).noExponentNotation = true
-        · rw [if_pos hne] at hs3
-          exact posN_arith S _ _ _ _ _ _ E D B 309 o.trim hS (by omega) (by have := hEno hne; omega) hdsn hnd hcD hc2 hexD
-            (by omega) hB hB64 hs3
-        · rw [if_neg hne] at hs3
-          have : sci ≤ o.posBreak.getD 9 := by
-            by_cases hh : sci > o.posBreak.getD 9
-            · exact absurd ⟨hne, Or.inr (Or.inr hh)⟩ c2
-            · omega
-          exact posN_arith S _ _ _ _ _ _ E D B (o.posBreak.getD 9).toNat o.trim hS (by omega) (hEbr hne).2 hdsn hnd hcD hc2
-            hexD (by omega) hB hB64 hs3
-
-
 /-! ## the repaired formula -/
 
 theorem sizeDigitsFixed_facts (o : WOpts) : 28 ≤ sizeDigitsFixed 10 o ∧ o.minDigits.getD 0 ≤ sizeDigitsFixed 10 o ∧
